@@ -272,7 +272,10 @@ T_HAbandon == /\ IsEvent("h_abandon")
                  THEN \* (a yield of the handler suspends only the handler future: the select! still sees the Delay)
                       /\ G("ha.cur", cur = a)
                       /\ G("ha.msg", act[a].curp.m = E.m)
-                      /\ G(IF act[a].stream THEN "ha.timeout.stream" ELSE "ha.timeout", TimeoutReady(a))
+                      \* (no timeout configured: the invocation died inside the library call its script was making)
+                      /\ G(IF act[a].stream THEN "ha.timeout.stream"
+                           ELSE IF act[a].tmo < 0 /\ ~ScriptDone(a) THEN "ha.libpanic." \o CurEff(a).e
+                           ELSE "ha.timeout", TimeoutReady(a))
                       /\ TimeoutFire(a) /\ cur' = cur /\ yl' = FALSE
                  ELSE /\ G("ha.dead", act[a].pc = "failed" /\ hst.ab[a] # <<>> /\ hst.ab[a][Len(hst.ab[a])] = E.m)
                       /\ UNCHANGED vars
